@@ -10,6 +10,8 @@
 import DDProofs.DumpJson
 import DDProofs.Total
 import DDProofs.ReachTotal
+import DDProofs.DynRef
+import DDProofs.LoadVarsOrder
 open Std
 namespace DD
 
@@ -123,26 +125,75 @@ theorem varNode_kept_noCtx (m : Mgr) (hI : Inv m) (hc : m.ctx = false) (j : Nat)
 theorem iteRaw_kept (m : Mgr) (hI : Inv m) (g u v : Int) : Kept m (iteRaw g u v m).2 := by
   rw [dmp_iteRaw_eq]; exact iteF_total m hI g u v
 
+/-- `Kept`, and the counts stay exact for whatever ledger they were exact for -/
+structure KeptR (m m' : Mgr) : Prop where
+  kept : Kept m m'
+  refs : ∀ ext : Nat → Nat, RefExact m ext → RefExact m' ext
+
+theorem KeptR.refl {m : Mgr} (h : Inv m) : KeptR m m := ⟨Kept.refl h, fun _ h => h⟩
+theorem KeptR.trans {a b c : Mgr} (h1 : KeptR a b) (h2 : KeptR b c) : KeptR a c :=
+  ⟨h1.kept.trans h2.kept, fun ext h => h2.refs ext (h1.refs ext h)⟩
+theorem KeptR.inv {m m' : Mgr} (h : KeptR m m') : Inv m' := h.kept.inv
+theorem KeptR.frame {m m' : Mgr} (h : KeptR m m') : Frame m m' := h.kept.frame
+
+theorem varNode_keptR_noCtx (m : Mgr) (hI : Inv m) (hc : m.ctx = false) (j : Nat) :
+    KeptR m (findOrAdd (j : Int) (-1) 1 m).2 :=
+  ⟨varNode_kept_noCtx m hI hc j, fun ext hr => findOrAdd_refExact m ext j (-1) 1 hI.wf.toWF hr⟩
+
+/-- `_ite` with an operand that is not a node changes nothing -/
+theorem iteF_notMem_same (m : Mgr) (hI : Inv m) (g u v : Int)
+    (hall : ¬ (m.tbl.Mem g ∧ m.tbl.Mem u ∧ m.tbl.Mem v)) : (iteF (m.nvars + 2) g u v m).2 = m := by
+  show (iteF (m.nvars + 1 + 1) g u v m).2 = m
+  unfold iteF
+  by_cases hg1 : g = 1
+  · simp [hg1]
+  · simp only [hg1, if_false]
+    by_cases hgm : g = -1
+    · simp [hgm]
+    · simp only [hgm, if_false]
+      cases hc : m.cache[iteKey g u v]? with
+      | some w =>
+        exfalso
+        have he := hI.cache g u v w hc
+        exact hall ⟨he.mg, he.mu, he.mv⟩
+      | none =>
+        simp only
+        by_cases hg : m.tbl.Mem g
+        · by_cases hu : m.tbl.Mem u
+          · have hv : ¬ m.tbl.Mem v := fun hv => hall ⟨hg, hu, hv⟩
+            rw [levelOf?_none_of_not_mem _ _ hv]
+            split <;> simp_all
+          · rw [levelOf?_none_of_not_mem _ _ hu]
+            split <;> simp_all
+        · rw [levelOf?_none_of_not_mem _ _ hg]
+
+theorem iteRaw_keptR (m : Mgr) (hI : Inv m) (g u v : Int) : KeptR m (iteRaw g u v m).2 := by
+  refine ⟨iteRaw_kept m hI g u v, fun ext hr => ?_⟩
+  rw [dmp_iteRaw_eq]
+  by_cases hall : m.tbl.Mem g ∧ m.tbl.Mem u ∧ m.tbl.Mem v
+  · exact iteF_refExact (m.nvars + 2) m ext g u v hI hr hall.1 hall.2.1 hall.2.2 (by omega)
+  · rw [iteF_notMem_same m hI g u v hall]; exact hr
+
 /-- `_load(u, succ, umap, level_map)` on ANY table of the file, any fuel -/
-theorem loadNodeF_kept (succ : List PEntry) (lm : List (Nat × Nat)) :
+theorem loadNodeF_keptR (succ : List PEntry) (lm : List (Nat × Nat)) :
     ∀ (fuel : Nat) (u : Int) (umap : TreeMap Int Int) (m : Mgr), Inv m → m.ctx = false →
-      Kept m (loadNodeF succ lm fuel u umap m).2 := by
+      KeptR m (loadNodeF succ lm fuel u umap m).2 := by
   intro fuel
   induction fuel with
-  | zero => intro u umap m hI _; exact Kept.refl hI
+  | zero => intro u umap m hI _; exact KeptR.refl hI
   | succ f ih =>
     intro u umap m hI hc
     simp only [loadNodeF]
     split
-    · exact Kept.refl hI
+    · exact KeptR.refl hI
     split
     · split
-      · exact Kept.refl hI
-      · split <;> exact Kept.refl hI
+      · exact KeptR.refl hI
+      · split <;> exact KeptR.refl hI
     split
-    · exact Kept.refl hI
+    · exact KeptR.refl hI
     split
-    · exact Kept.refl hI
+    · exact KeptR.refl hI
     split
     · -- both children
       rename_i _ _ _ j _ _ _ v w _ _
@@ -166,7 +217,7 @@ theorem loadNodeF_kept (succ : List PEntry) (lm : List (Nat × Nat)) :
               obtain ⟨q, umap2⟩ := qr
               dsimp only
               have c2 : m2.ctx = false := by rw [k2.frame.ctx]; exact c1
-              have k3 := varNode_kept_noCtx m2 k2.inv c2 j
+              have k3 := varNode_keptR_noCtx m2 k2.inv c2 j
               cases h3 : findOrAdd (j : Int) (-1) 1 m2 with
               | mk r3 m3 =>
                 rw [h3] at k3
@@ -174,7 +225,7 @@ theorem loadNodeF_kept (succ : List PEntry) (lm : List (Nat × Nat)) :
                 | error e => exact (k1.trans k2).trans k3
                 | ok g =>
                   dsimp only
-                  have k4 := iteRaw_kept m3 k3.inv g q p
+                  have k4 := iteRaw_keptR m3 k3.inv g q p
                   cases h4 : iteRaw g q p m3 with
                   | mk r4 m4 =>
                     rw [h4] at k4
@@ -184,7 +235,7 @@ theorem loadNodeF_kept (succ : List PEntry) (lm : List (Nat × Nat)) :
                     | ok r =>
                       dsimp only
                       split <;> exact K
-    · exact Kept.refl hI
+    · exact KeptR.refl hI
     · rename_i v _ _
       have k1 := ih v umap m hI hc
       cases h1 : loadNodeF succ lm f v umap m with
@@ -192,18 +243,18 @@ theorem loadNodeF_kept (succ : List PEntry) (lm : List (Nat × Nat)) :
         rw [h1] at k1
         cases r1 <;> exact k1
 
-theorem loadAll_kept (succ : List PEntry) (lm : List (Nat × Nat)) (fuel : Nat) :
+theorem loadAll_keptR (succ : List PEntry) (lm : List (Nat × Nat)) (fuel : Nat) :
     ∀ (es : List PEntry) (umap : TreeMap Int Int) (m : Mgr), Inv m → m.ctx = false →
-      Kept m (loadAll succ lm fuel es umap m).2 := by
+      KeptR m (loadAll succ lm fuel es umap m).2 := by
   intro es
   induction es with
-  | nil => intro umap m hI _; exact Kept.refl hI
+  | nil => intro umap m hI _; exact KeptR.refl hI
   | cons e rest ih =>
     intro umap m hI hc
     simp only [loadAll]
     split
     · exact ih umap m hI hc
-    · have k1 := loadNodeF_kept succ lm fuel (e.id : Int) umap m hI hc
+    · have k1 := loadNodeF_keptR succ lm fuel (e.id : Int) umap m hI hc
       cases h1 : loadNodeF succ lm fuel (e.id : Int) umap m with
       | mk r1 m1 =>
         rw [h1] at k1
@@ -213,47 +264,101 @@ theorem loadAll_kept (succ : List PEntry) (lm : List (Nat × Nat)) (fuel : Nat) 
           dsimp only
           exact k1.trans (ih pr.2 m1 k1.inv (by rw [k1.frame.ctx]; exact hc))
 
+theorem addVar_refs_any (m : Mgr) (var : String) (lvl : Option Int) (ext : Nat → Nat)
+    (hr : RefExact m ext) : RefExact (addVar var lvl m).2 ext := by
+  cases h : addVar var lvl m with
+  | mk r m' =>
+    cases r with
+    | error e => rw [addVar_err_same m m' var lvl e h]; exact hr
+    | ok j =>
+      rcases dmp_addVar_cases h with ⟨_, h2, _⟩ | ⟨_, _, _, h4⟩
+      · subst h2; exact hr
+      · subst h4; exact hr.congr_nodes (fun _ => rfl) rfl
+
+/-- the first loop of `_load_pickle`, any pairs, any `levels`, any outcome -/
 theorem loadVars_keptV (levels : Bool) (n : Nat) :
     ∀ (vs : List (String × Nat)) (lm : List (Nat × Nat)) (m : Mgr), Inv m →
-      KeptV m (loadVars levels n vs lm m).2 := by
+      KeptV m (loadVars levels n vs lm m).2 ∧
+      ∀ ext, RefExact m ext → RefExact (loadVars levels n vs lm m).2 ext := by
   intro vs
   induction vs with
-  | nil => intro lm m hI; exact KeptV.refl hI
+  | nil => intro lm m hI; exact ⟨KeptV.refl hI, fun _ h => h⟩
   | cons x rest ih =>
     intro lm m hI
     obtain ⟨var, i⟩ := x
     simp only [loadVars]
     split
-    · exact KeptV.refl hI
+    · exact ⟨KeptV.refl hI, fun _ h => h⟩
     · have k1 := addVar_keptV m hI var (if levels = true then some (i : Int) else none)
+      have r1 := addVar_refs_any m var (if levels = true then some (i : Int) else none)
       cases h1 : addVar var (if levels = true then some (i : Int) else none) m with
-      | mk r1 m1 =>
-        rw [h1] at k1
-        cases r1 with
-        | error e => exact k1
-        | ok j => exact k1.trans (ih _ m1 k1.inv)
+      | mk r1' m1 =>
+        rw [h1] at k1 r1
+        cases r1' with
+        | error e => exact ⟨k1, r1⟩
+        | ok j =>
+          obtain ⟨k2, r2⟩ := ih ((i, j) :: lm) m1 k1.inv
+          exact ⟨k1.trans k2, fun ext h => r2 ext (r1 ext h)⟩
+
+/-- what `BDD.load` leaves behind, for ANY content and EVERY outcome: `KeptV`; the counts exact
+for the ledger they were exact for (the loader holds nothing when it returns or raises); the
+order still a bijection onto `0..n-1`.  (`levels=True`: by the two pre-checks of `_load_pickle`
+— the file's levels are a permutation of `0..n-1`, every pair agrees with the manager — the
+load is refused before anything is declared, or every variable gets declared.  The hypothesis
+"distinct names" says that `vars` is a dict: the model keeps its items as a list.) -/
+structure LoadLeaves (f : PickleFile) (levels : Bool) (m m' : Mgr) : Prop where
+  kept : KeptV m m'
+  counts : ∀ ext : Nat → Nat, RefExact m ext → RefExact m' ext
+  order : OrderOK m.tbl → (levels = true → (f.vars.map (·.1)).Nodup) → OrderOK m'.tbl
+
+theorem LoadLeaves.same (f : PickleFile) (levels : Bool) {m : Mgr} (hI : Inv m) : LoadLeaves f levels m m :=
+  ⟨KeptV.refl hI, fun _ h => h, fun h _ => h⟩
 
 /-- `BDD.load(file, levels)` on ANY content of a pickle file, any outcome -/
-theorem loadPickle_keptV (f : PickleFile) (levels : Bool) (m : Mgr) (hI : Inv m) (hc : m.ctx = false) :
-    KeptV m (loadPickle f levels m).2 := by
-  unfold loadPickle
-  have k1 := loadVars_keptV levels f.vars.length f.vars [] m hI
+theorem loadPickle_leaves (f : PickleFile) (levels : Bool) (m : Mgr) (hI : Inv m) (hc : m.ctx = false) :
+    LoadLeaves f levels m (loadPickle f levels m).2 := by
+  rw [loadPickle_eq]
+  split
+  · exact LoadLeaves.same f levels hI
+  rename_i hperm
+  split
+  · exact LoadLeaves.same f levels hI
+  rename_i hcomp
+  unfold loadPickleBody
+  obtain ⟨k1, r1⟩ := loadVars_keptV levels f.vars.length f.vars [] m hI
+  -- the order tables after the declaration loop
+  have o1 : OrderOK m.tbl → (levels = true → (f.vars.map (·.1)).Nodup) →
+      OrderOK (loadVars levels f.vars.length f.vars [] m).2.tbl := by
+    intro hO hW
+    cases levels with
+    | false => exact loadVars_false_orderOK _ _ _ m hI hO
+    | true =>
+      have hcp : levelsCompatible m.tbl f.vars = true := by
+        simpa using hcomp
+      have hpp : levelsPermutation f.vars = true := by simpa using hperm
+      obtain ⟨lm, m1, e1, O1, _⟩ := loadVars_true_total f.vars (VarsWF.of_perm (hW rfl) hpp) m hO hcp
+      rw [e1]; exact O1
   cases h1 : loadVars levels f.vars.length f.vars [] m with
-  | mk r1 m1 =>
-    rw [h1] at k1
-    cases r1 with
-    | error e => exact k1
+  | mk r m1 =>
+    rw [h1] at k1 r1 o1
+    cases r with
+    | error e => exact ⟨k1, r1, o1⟩
     | ok lm =>
       dsimp only
       have c1 : m1.ctx = false := by rw [k1.ctx]; exact hc
-      have k2 := loadAll_kept f.succ lm (f.vars.length + f.succ.length + 2) f.succ {} m1 k1.inv c1
+      have k2 := loadAll_keptR f.succ lm (f.vars.length + f.succ.length + 2) f.succ {} m1 k1.inv c1
+      have fin : ∀ m2, KeptR m1 m2 → LoadLeaves f levels m m2 := fun m2 k2 =>
+        ⟨k1.trans (k2.kept.toV k1.inv), fun ext h => k2.refs ext (r1 ext h),
+          fun hO hW => (o1 hO hW).congr k2.frame.vars k2.frame.l2v⟩
       cases h2 : loadAll f.succ lm (f.vars.length + f.succ.length + 2) f.succ {} m1 with
       | mk r2 m2 =>
         rw [h2] at k2
         cases r2 with
-        | error e => exact k1.trans (k2.toV k1.inv)
-        | ok umap => exact k1.trans (k2.toV k1.inv)
+        | error e => exact fin m2 k2
+        | ok umap => exact fin m2 k2
 
+theorem loadPickle_keptV (f : PickleFile) (levels : Bool) (m : Mgr) (hI : Inv m) (hc : m.ctx = false) :
+    KeptV m (loadPickle f levels m).2 := (loadPickle_leaves f levels m hI hc).kept
 
 /-- `wrapList` (the `Function`s of the result) on anything -/
 theorem wrapList_kept : ∀ (us : List Int) (m : Mgr), Inv m → Kept m (wrapList us m).2 := by
@@ -275,25 +380,74 @@ theorem wrapList_kept : ∀ (us : List Int) (m : Mgr), Inv m → Kept m (wrapLis
       | error e => exact k1
       | ok _ => exact k1.trans (ih m1 k1.inv)
 
-/-- `dd.autoref.BDD.load(file, levels)` on ANY content of a pickle file, any outcome -/
-theorem loadPickleAutoref_keptV (f : PickleFile) (levels : Bool) (m : Mgr) (hI : Inv m)
-    (hc : m.ctx = false) : KeptV m (loadPickleAutoref f levels m).2 := by
+/-- a successful `wrapList` wrapped nodes -/
+theorem wrapList_ok_mem : ∀ (us : List Int) (m m' : Mgr), wrapList us m = (.ok (), m') →
+    ∀ u ∈ us, m.tbl.Mem u := by
+  intro us
+  induction us with
+  | nil => intro m m' _ u hu; cases hu
+  | cons x rest ih =>
+    intro m m' h u hu
+    simp only [wrapList] at h
+    have hx : m.mem x = true := by
+      cases hmx : m.mem x with
+      | true => rfl
+      | false => simp [dmpWrap, hmx] at h
+    cases h1 : dmpWrap x m with
+    | mk r m1 =>
+      rw [h1] at h
+      cases r with
+      | error e => simp at h
+      | ok _ =>
+        dsimp only at h
+        have ht : m1.tbl = m.tbl := by
+          simp only [dmpWrap, hx, Bool.not_true, Bool.false_eq_true, if_false] at h1
+          unfold incref at h1
+          split at h1
+          · cases h1
+          · simp only [Prod.mk.injEq] at h1; rw [← h1.2]
+        rcases List.mem_cons.mp hu with rfl | hu'
+        · exact (Mgr.mem_iff m u).mp hx
+        · rw [← ht]; exact ih m1 m' h u hu'
+
+/-- `dd.autoref.BDD.load(file, levels)` on ANY content of a pickle file, any outcome: as
+`loadPickle_leaves`, and the counts are exact for the caller's ledger plus ONE reference per
+returned `Function` — for the caller's ledger itself when the call raised -/
+theorem loadPickleAutoref_leaves (f : PickleFile) (levels : Bool) (m : Mgr) (hI : Inv m)
+    (hc : m.ctx = false) :
+    KeptV m (loadPickleAutoref f levels m).2 ∧
+    (OrderOK m.tbl → (levels = true → (f.vars.map (·.1)).Nodup) → OrderOK (loadPickleAutoref f levels m).2.tbl) ∧
+    ∀ ext, RefExact m ext →
+      match (loadPickleAutoref f levels m).1 with
+      | .ok roots => RefExact (loadPickleAutoref f levels m).2 (extAdd ext (roots.values.map Int.natAbs))
+      | .error _ => RefExact (loadPickleAutoref f levels m).2 ext := by
   unfold loadPickleAutoref
-  have k1 := loadPickle_keptV f levels m hI hc
+  have L := loadPickle_leaves f levels m hI hc
   cases h1 : loadPickle f levels m with
   | mk r m1 =>
-    rw [h1] at k1
+    rw [h1] at L
     cases r with
-    | error e => exact k1
+    | error e => exact ⟨L.kept, L.order, fun ext h => L.counts ext h⟩
     | ok roots =>
       dsimp only
-      have k2 := wrapList_kept roots.values m1 k1.inv
+      have k2 := wrapList_kept roots.values m1 L.kept.inv
       cases h2 : wrapList roots.values m1 with
       | mk r2 m2 =>
         rw [h2] at k2
         cases r2 with
-        | ok _ => exact k1.trans (k2.toV k1.inv)
-        | error e => exact k1
+        | error e => exact ⟨L.kept, L.order, fun ext h => L.counts ext h⟩
+        | ok _ =>
+          refine ⟨L.kept.trans (k2.toV L.kept.inv),
+            fun hO hW => (L.order hO hW).congr k2.frame.vars k2.frame.l2v, fun ext h => ?_⟩
+          obtain ⟨r, e2, _, R2⟩ := wrapList_spec roots.values m1 ext L.kept.inv (L.counts ext h)
+            (wrapList_ok_mem _ _ _ h2)
+          rw [h2] at e2
+          simp only [Prod.mk.injEq, true_and] at e2
+          rw [e2]; exact R2
+
+theorem loadPickleAutoref_keptV (f : PickleFile) (levels : Bool) (m : Mgr) (hI : Inv m)
+    (hc : m.ctx = false) : KeptV m (loadPickleAutoref f levels m).2 :=
+  (loadPickleAutoref_leaves f levels m hI hc).1
 
 /-! ### the JSON loader (`load_order=False`, reordering not enabled): any content -/
 
@@ -409,111 +563,515 @@ theorem applyNot_hnq : ∀ row, findRow "not" Gen.applyTable = some row →
 theorem TotK.applyNot (u : Int) : TotK (apply "not" u none none) :=
   fun m hI hoff => apply_total m hI hoff "not" u none none applyNot_hnq
 
-theorem TotK.nodeFromInt (cache : List (Nat × Int)) (uid : Int) : TotK (nodeFromInt cache uid) := by
+/-! ### every outcome, with the ledger: `Safe`
+
+`Safe e l lerr x post`: started between two calls with the counts exact for the ledger
+`e + l` (`l` lists the references the loader's live `Function`s and its shelf hold), `x` keeps
+the manager (`Kept`) and ends — when it returns `a` — in such a state for a ledger `l'` with
+`post a l'`, and — when it raises — in such a state for the ledger `e + lerr`. -/
+
+def Safe {α : Type} (e : Nat → Nat) (l lerr : List Nat) (x : M α) (post : α → List Nat → Prop) : Prop :=
+  ∀ m, GoodState m (extAdd e l) →
+    Kept m (x m).2 ∧
+    match (x m).1 with
+    | .ok a => ∃ l', post a l' ∧ GoodState (x m).2 (extAdd e l')
+    | .error _ => GoodState (x m).2 (extAdd e lerr)
+
+theorem GoodState.permL {e : Nat → Nat} {l l' : List Nat} {m : Mgr} (h : GoodState m (extAdd e l))
+    (hp : l.Perm l') : GoodState m (extAdd e l') := by rw [← extAdd_perm e hp]; exact h
+
+theorem Safe.mono {α : Type} {e : Nat → Nat} {l lerr : List Nat} {x : M α} {P Q : α → List Nat → Prop}
+    (h : Safe e l lerr x P) (hpq : ∀ a l', P a l' → Q a l') : Safe e l lerr x Q := by
+  intro m hg
+  obtain ⟨k, ho⟩ := h m hg
+  refine ⟨k, ?_⟩
+  cases hr : (x m).1 with
+  | ok a =>
+    rw [hr] at ho
+    obtain ⟨l', p, g⟩ := ho
+    exact ⟨l', hpq a l' p, g⟩
+  | error er => rw [hr] at ho; exact ho
+
+theorem Safe.perm {α : Type} {e : Nat → Nat} {l l2 lerr lerr2 : List Nat} {x : M α}
+    {P : α → List Nat → Prop} (h : Safe e l lerr x P) (h1 : l2.Perm l) (h2 : lerr.Perm lerr2) :
+    Safe e l2 lerr2 x P := by
+  intro m hg
+  obtain ⟨k, ho⟩ := h m (hg.permL h1)
+  refine ⟨k, ?_⟩
+  cases hr : (x m).1 with
+  | ok a => rw [hr] at ho; exact ho
+  | error er => rw [hr] at ho; exact ho.permL h2
+
+theorem Safe.bind {α β : Type} {e : Nat → Nat} {l lerr : List Nat} {x : M α} {f : α → M β}
+    {P : α → List Nat → Prop} {Q : β → List Nat → Prop}
+    (hx : Safe e l lerr x P) (hf : ∀ a l1, P a l1 → Safe e l1 lerr (f a) Q) :
+    Safe e l lerr (x >>= f) Q := by
+  intro m hg
+  obtain ⟨k1, ho⟩ := hx m hg
+  cases h1 : x m with
+  | mk r m1 =>
+    rw [h1] at k1 ho
+    cases r with
+    | error er =>
+      rw [M.bind_eq_err h1]
+      exact ⟨k1, ho⟩
+    | ok a =>
+      obtain ⟨l1, p, g1⟩ := ho
+      obtain ⟨k2, ho2⟩ := hf a l1 p m1 g1
+      rw [M.bind_eq_ok h1]
+      exact ⟨k1.trans k2, ho2⟩
+
+theorem Safe.pure {α : Type} {e : Nat → Nat} {l lerr : List Nat} (a : α) {P : α → List Nat → Prop}
+    (h : P a l) : Safe e l lerr (pure a : M α) P :=
+  fun _ hg => ⟨Kept.refl hg.inv, l, h, hg⟩
+
+theorem Safe.throw {α : Type} {e : Nat → Nat} {l : List Nat} (er : Err) {P : α → List Nat → Prop} :
+    Safe e l l (M.throw er : M α) P :=
+  fun _ hg => ⟨Kept.refl hg.inv, hg⟩
+
+theorem Safe.assert {e : Nat → Nat} {l : List Nat} (b : Bool) :
+    Safe e l l (M.assert b) (fun _ l' => l' = l) := by
+  unfold M.assert; split
+  · exact Safe.pure () rfl
+  · exact Safe.throw _
+
+theorem Safe.ofOption {α : Type} {e : Nat → Nat} {l : List Nat} (er : Err) (o : Option α) :
+    Safe e l l (M.ofOption er o) (fun _ l' => l' = l) := by
+  cases o with
+  | none => exact Safe.throw _
+  | some a => exact Safe.pure a rfl
+
+/-- an operation that keeps the manager and the counts for the same ledger, whatever it returns -/
+theorem Safe.ofKeeps {α : Type} {e : Nat → Nat} {l : List Nat} {x : M α}
+    (hk : ∀ m, Inv m → m.lastLen = none → Kept m (x m).2)
+    (hr : ∀ m ext, Lite ext m → RefExact (x m).2 ext) :
+    Safe e l l x (fun _ l' => l' = l) := by
+  intro m hg
+  have k := hk m hg.inv hg.off
+  have g : GoodState (x m).2 (extAdd e l) := hg.of_kept k (hr m _ hg.lite)
+  refine ⟨k, ?_⟩
+  cases (x m).1 with
+  | ok a => exact ⟨l, rfl, g⟩
+  | error er => exact g
+
+theorem Safe.bddVar {e : Nat → Nat} {l : List Nat} (name : String) :
+    Safe e l l (var name) (fun _ l' => l' = l) :=
+  Safe.ofKeeps (TotK.bddVar name) (fun m ext h => (var_lite ext name m h).1.exact)
+
+theorem Safe.bddIte {e : Nat → Nat} {l : List Nat} (g u v : Int) :
+    Safe e l l (ite g u v) (fun _ l' => l' = l) :=
+  Safe.ofKeeps (TotK.bddIte g u v) (fun m ext h => (ite_lite ext g u v m h).1.exact)
+
+theorem Safe.applyNot {e : Nat → Nat} {l : List Nat} (u : Int) :
+    Safe e l l (apply "not" u none none) (fun _ l' => l' = l) :=
+  Safe.ofKeeps (TotK.applyNot u) (fun m ext h => (apply_lite ext "not" u none none m h).exact)
+
+theorem Safe.containsCheck {e : Nat → Nat} {l : List Nat} (u : Int) :
+    Safe e l l (containsCheck u) (fun _ l' => l' = l) := by
+  unfold DD.containsCheck
+  refine Safe.bind (P := fun _ l' => l' = l) (fun m hg => ⟨Kept.refl hg.inv, l, rfl, hg⟩) fun a l1 h1 => ?_
+  subst h1
+  split
+  · exact Safe.throw _
+  · exact Safe.pure _ rfl
+
+/-- `Function(u, bdd)` on ANY integer: refused (`ValueError`) with nothing changed, or one more
+reference -/
+theorem Safe.wrap {e : Nat → Nat} {l : List Nat} (u : Int) :
+    Safe e l l (dmpWrap u) (fun _ l' => l' = u.natAbs :: l) := by
+  intro m hg
+  by_cases hu : m.tbl.Mem u
+  · obtain ⟨r', hw, g⟩ := dmp_wrap_spec m _ hg u hu
+    rw [extInc_extAdd] at g
+    have hk : Kept m (dmpWrap u m).2 := TotK.wrap u m hg.inv hg.off
+    rw [hw] at hk ⊢
+    exact ⟨hk, _, rfl, g⟩
+  · have hm : m.mem u = false := (Tbl.mem_false_iff _ _).mpr hu
+    have : dmpWrap u m = (.error .value, m) := by unfold dmpWrap; simp [hm]
+    rw [this]
+    exact ⟨Kept.refl hg.inv, hg⟩
+
+/-- `bdd.incref(u)` on ANY integer -/
+theorem Safe.incref {e : Nat → Nat} {l : List Nat} (u : Int) :
+    Safe e l l (incref u) (fun _ l' => l' = u.natAbs :: l) := by
+  intro m hg
+  have hk := incref_kept m hg.inv u
+  by_cases hu : m.tbl.Mem u
+  · obtain ⟨c, _, he, _⟩ := incref_spec m _ u hg.exact hu
+    have g := (incref_good m _ hg u).1
+    have hm : m.mem u = true := (Mgr.mem_iff m u).mpr hu
+    simp only [hm, if_true] at g
+    rw [extInc_extAdd] at g
+    rw [he] at hk g ⊢
+    exact ⟨hk, _, rfl, g⟩
+  · have g := (incref_good m _ hg u).1
+    have hm : m.mem u = false := (Tbl.mem_false_iff _ _).mpr hu
+    simp only [hm, Bool.false_eq_true, if_false] at g
+    have hn := incref_not_mem m u (ref_none_of_not_mem hg.exact hu)
+    rw [hn] at hk g ⊢
+    exact ⟨hk, g⟩
+
+/-- the temporaries die whether the block returned or raised -/
+theorem Safe.withTemps {α : Type} {e : Nat → Nat} {l lerr : List Nat} (a : Int) {x : M α}
+    {P Q : α → List Nat → Prop} (hx : Safe e l (a.natAbs :: lerr) x P)
+    (hq : ∀ b l', P b l' → ∃ L, l'.Perm (a.natAbs :: L) ∧ Q b L) :
+    Safe e l lerr (withTemps [a] x) Q := by
+  intro m hg
+  obtain ⟨k1, ho⟩ := hx m hg
+  unfold DD.withTemps
+  cases h1 : x m with
+  | mk r m1 =>
+    rw [h1] at k1 ho
+    have kd : Kept m1 (dropList [a] m1) := dropList_kept [a] m1 k1.inv
+    cases r with
+    | error er =>
+      obtain ⟨r', hd, g⟩ := dmp_drop_spec m1 _ ho a (extAdd_pos _ _ _)
+      rw [extDec_extAdd] at g
+      refine ⟨k1.trans kd, ?_⟩
+      show GoodState (dropList [a] m1) _
+      simp only [dropList]; rw [hd]; exact g
+    | ok b =>
+      obtain ⟨l', p, g1⟩ := ho
+      obtain ⟨L, hp, q⟩ := hq b l' p
+      obtain ⟨r', hd, g⟩ := dmp_drop_spec m1 _ (g1.permL hp) a (extAdd_pos _ _ _)
+      rw [extDec_extAdd] at g
+      refine ⟨k1.trans kd, L, q, ?_⟩
+      show GoodState (dropList [a] m1) _
+      simp only [dropList]; rw [hd]; exact g
+
+
+/-- `_node_from_int` on ANY shelf and ANY id: one reference on the returned node, or an
+exception with every temporary released -/
+theorem Safe.nodeFromInt {e : Nat → Nat} {l : List Nat} (cache : List (Nat × Int)) (uid : Int) :
+    Safe e l l (nodeFromInt cache uid) (fun r l' => l' = r.natAbs :: l) := by
   unfold DD.nodeFromInt
   by_cases hm1 : uid = -1
   · simp only [hm1, if_true]
-    exact TotK.bind (TotK.wrap _) fun _ => TotK.pure _
+    exact Safe.bind (Safe.wrap _) fun _ l1 h1 => by rw [h1]; exact Safe.pure _ rfl
   by_cases h1 : uid = 1
   · simp only [hm1, h1, if_false, if_true]
-    exact TotK.bind (TotK.wrap _) fun _ => TotK.pure _
+    exact Safe.bind (Safe.wrap _) fun _ l1 h1 => by rw [h1]; exact Safe.pure _ rfl
   simp only [hm1, h1, if_false]
-  refine TotK.bind (TotK.ofOption _ _) fun k => TotK.bind (TotK.wrap _) fun _ => ?_
+  refine Safe.bind (Safe.ofOption _ _) fun k l1 hl1 => ?_
+  rw [hl1]
+  refine Safe.bind (Safe.wrap k) fun _ l1 hl1 => ?_
+  rw [hl1]
   split
-  · exact TotK.withTemps _ (TotK.bind (TotK.applyNot _) fun r => TotK.bind (TotK.wrap _) fun _ => TotK.pure _)
-  · exact TotK.pure _
+  · refine Safe.withTemps (lerr := l) k
+      (P := fun r l' => l' = r.natAbs :: k.natAbs :: l) ?_ ?_
+    · refine Safe.bind (Safe.applyNot k) fun r l1 hl1 => ?_
+      rw [hl1]
+      refine Safe.bind (Safe.wrap r) fun _ l1 hl1 => ?_
+      rw [hl1]
+      exact Safe.pure _ rfl
+    · intro r l' hl'
+      rw [hl']
+      exact ⟨r.natAbs :: l, List.Perm.swap _ _ _, rfl⟩
+  · exact Safe.pure k rfl
 
-theorem TotK.makeNode (vat : List (Nat × String)) (ln : JLine) (cache : List (Nat × Int)) :
-    TotK (makeNode false vat ln cache) := by
+/-- the shelf gets one more entry, held once more -/
+def PostT (cache : List (Nat × Int)) (id : Nat) (T : List Nat) (c' : List (Nat × Int)) (l' : List Nat) : Prop :=
+  ∃ u : Int, c' = cache ++ [(id, u)] ∧ l' = u.natAbs :: T
+
+/-- `_make_node` (`load_order=False`) on ANY line and ANY shelf: the line is skipped, or its node
+is put on the shelf with one reference, or an exception leaves the counts as they were — every
+temporary `Function` has been released -/
+theorem Safe.makeNode {e : Nat → Nat} {l : List Nat} (vat : List (Nat × String)) (ln : JLine)
+    (cache : List (Nat × Int)) :
+    Safe e l l (makeNode false vat ln cache)
+      (fun c' l' => (c' = cache ∧ l' = l) ∨ (cache.lookup ln.id = none ∧ PostT cache ln.id l c' l')) := by
   unfold DD.makeNode
-  refine TotK.bind (TotK.assert _) fun _ => ?_
+  refine Safe.bind (Safe.assert _) fun _ l1 hl1 => ?_
+  rw [hl1]
   by_cases hin : (cache.lookup ln.id).isSome = true
   · simp only [hin, if_true]
-    exact TotK.pure _
+    exact Safe.pure _ (Or.inl ⟨rfl, rfl⟩)
   simp only [hin, Bool.false_eq_true, if_false]
-  refine TotK.bind (TotK.nodeFromInt _ _) fun low => TotK.withTemps _ ?_
-  refine TotK.bind (TotK.nodeFromInt _ _) fun high => TotK.withTemps _ ?_
-  refine TotK.bind (TotK.ofOption _ _) fun name => ?_
-  refine TotK.bind (TotK.bddVar _) fun g => TotK.bind (TotK.wrap _) fun _ => TotK.withTemps _ ?_
-  refine TotK.bind (TotK.containsCheck _) fun _ => TotK.bind (TotK.containsCheck _) fun _ =>
-    TotK.bind (TotK.containsCheck _) fun _ => TotK.bind (TotK.bddIte _ _ _) fun u =>
-    TotK.bind (TotK.wrap _) fun _ => TotK.withTemps _ ?_
-  exact TotK.bind (TotK.assert _) fun _ => TotK.bind (TotK.incref _) fun _ => TotK.pure _
+  have hnew : cache.lookup ln.id = none := by
+    cases hh : cache.lookup ln.id with
+    | none => rfl
+    | some x => simp [hh] at hin
+  refine Safe.mono (P := PostT cache ln.id l) ?_ (fun c' l' h => Or.inr ⟨hnew, h⟩)
+  refine Safe.bind (Safe.nodeFromInt cache ln.lo) fun low l1 hl1 => ?_
+  rw [hl1]
+  refine Safe.withTemps (lerr := l) low (P := PostT cache ln.id (low.natAbs :: l)) ?_
+    (fun c' l' ⟨u, hc, hl'⟩ => ⟨u.natAbs :: l, by rw [hl']; exact List.Perm.swap _ _ _, u, hc, rfl⟩)
+  refine Safe.bind (Safe.nodeFromInt cache ln.hi) fun high l1 hl1 => ?_
+  rw [hl1]
+  refine Safe.withTemps (lerr := low.natAbs :: l) high
+    (P := PostT cache ln.id (high.natAbs :: low.natAbs :: l)) ?_
+    (fun c' l' ⟨u, hc, hl'⟩ => ⟨u.natAbs :: low.natAbs :: l, by rw [hl']; exact List.Perm.swap _ _ _, u, hc, rfl⟩)
+  refine Safe.bind (Safe.ofOption _ _) fun name l1 hl1 => ?_
+  rw [hl1]
+  refine Safe.bind (Safe.bddVar name) fun g l1 hl1 => ?_
+  rw [hl1]
+  refine Safe.bind (Safe.wrap g) fun _ l1 hl1 => ?_
+  rw [hl1]
+  refine Safe.withTemps (lerr := high.natAbs :: low.natAbs :: l) g
+    (P := PostT cache ln.id (g.natAbs :: high.natAbs :: low.natAbs :: l)) ?_
+    (fun c' l' ⟨u, hc, hl'⟩ => ⟨u.natAbs :: high.natAbs :: low.natAbs :: l,
+      by rw [hl']; exact List.Perm.swap _ _ _, u, hc, rfl⟩)
+  refine Safe.bind (Safe.containsCheck g) fun _ l1 hl1 => ?_
+  rw [hl1]
+  refine Safe.bind (Safe.containsCheck high) fun _ l1 hl1 => ?_
+  rw [hl1]
+  refine Safe.bind (Safe.containsCheck low) fun _ l1 hl1 => ?_
+  rw [hl1]
+  refine Safe.bind (Safe.bddIte g high low) fun u l1 hl1 => ?_
+  rw [hl1]
+  refine Safe.bind (Safe.wrap u) fun _ l1 hl1 => ?_
+  rw [hl1]
+  refine Safe.withTemps (lerr := g.natAbs :: high.natAbs :: low.natAbs :: l) u
+    (P := fun c' l' => c' = cache ++ [(ln.id, u)] ∧
+      l' = u.natAbs :: u.natAbs :: g.natAbs :: high.natAbs :: low.natAbs :: l) ?_
+    (fun c' l' ⟨hc, hl'⟩ => ⟨u.natAbs :: g.natAbs :: high.natAbs :: low.natAbs :: l,
+      by rw [hl'], u, hc, rfl⟩)
+  refine Safe.bind (Safe.assert _) fun _ l1 hl1 => ?_
+  rw [hl1]
+  refine Safe.bind (Safe.incref u) fun _ l1 hl1 => ?_
+  rw [hl1]
+  exact Safe.pure _ ⟨rfl, rfl⟩
 
-theorem TotK.makeNodes (vat : List (Nat × String)) :
-    ∀ (lines : List JLine) (cache : List (Nat × Int)), TotK (makeNodes false vat lines cache) := by
-  intro lines
-  induction lines with
-  | nil => intro cache; unfold DD.makeNodes; exact TotK.pure _
+/-- the references the shelf holds -/
+def shelfRefs (c : List (Nat × Int)) : List Nat := c.map (·.2.natAbs)
+
+/-- the loop over the node lines (`load_order=False`), ANY lines: however it is left, the counts
+are exact for the caller's ledger plus one reference per shelf entry -/
+theorem makeNodesE_any (e : Nat → Nat) (vat : List (Nat × String)) :
+    ∀ (ls : List JLine) (cache : List (Nat × Int)) (m : Mgr), (cache.map (·.1)).Nodup →
+      (∀ p ∈ cache, p.1 ≠ 1) → (∀ ln ∈ ls, ln.id ≠ 1) →
+      GoodState m (extAdd e (shelfRefs cache)) →
+      Kept m (makeNodesE false vat ls cache m).2.2 ∧
+      ((makeNodesE false vat ls cache m).2.1.map (·.1)).Nodup ∧
+      (∀ p ∈ (makeNodesE false vat ls cache m).2.1, p.1 ≠ 1) ∧
+      GoodState (makeNodesE false vat ls cache m).2.2
+        (extAdd e (shelfRefs (makeNodesE false vat ls cache m).2.1)) := by
+  intro ls
+  induction ls with
+  | nil => intro cache m hn h1 _ hg; exact ⟨Kept.refl hg.inv, hn, h1, hg⟩
   | cons ln rest ih =>
-    intro cache
-    unfold DD.makeNodes
-    exact TotK.bind (TotK.makeNode vat ln cache) fun c => ih c
+    intro cache m hn h1 hl1 hg
+    obtain ⟨k1, ho⟩ := Safe.makeNode (e := e) (l := shelfRefs cache) vat ln cache m hg
+    rw [makeNodesE]
+    cases hmk : makeNode false vat ln cache m with
+    | mk r m1 =>
+      rw [hmk] at k1 ho
+      cases r with
+      | error er => exact ⟨k1, hn, h1, ho⟩
+      | ok c1 =>
+        dsimp only
+        obtain ⟨l', hp, g1⟩ := ho
+        have hrest : ∀ ln' ∈ rest, ln'.id ≠ 1 := fun x hx => hl1 x (List.mem_cons_of_mem _ hx)
+        rcases hp with ⟨rfl, rfl⟩ | ⟨hnew, u, rfl, rfl⟩
+        · obtain ⟨k2, n2, i2, g2⟩ := ih c1 m1 hn h1 hrest g1
+          exact ⟨k1.trans k2, n2, i2, g2⟩
+        · have hn' : ((cache ++ [(ln.id, u)]).map (·.1)).Nodup := by
+            rw [List.map_append, List.nodup_append]
+            refine ⟨hn, by simp, ?_⟩
+            intro a ha b hb hab
+            simp at hb
+            subst hb hab
+            have := (dmp_lookup_isSome_of_mem_keys cache _).mpr ha
+            rw [hnew] at this; cases this
+          have h1' : ∀ p ∈ cache ++ [(ln.id, u)], p.1 ≠ 1 := by
+            intro p hp
+            rcases List.mem_append.mp hp with h | h
+            · exact h1 p h
+            · simp at h; subst h; exact hl1 ln List.mem_cons_self
+          have g1' : GoodState m1 (extAdd e (shelfRefs (cache ++ [(ln.id, u)]))) := by
+            apply g1.permL
+            simp only [shelfRefs, List.map_append, List.map_cons, List.map_nil]
+            exact (List.perm_append_singleton _ _).symm
+          obtain ⟨k2, n2, i2, g2⟩ := ih _ m1 hn' h1' hrest g1'
+          exact ⟨k1.trans k2, n2, i2, g2⟩
 
-theorem dmpDrop_kept (u : Int) (m : Mgr) (hI : Inv m) : Kept m (dmpDrop u m).2 := decref_kept m hI u
-
-theorem dropOpt_kept (o : Option Int) (m : Mgr) (hI : Inv m) : Kept m (dropOpt o m) := by
-  cases o with
-  | none => exact Kept.refl hI
-  | some u => exact dmpDrop_kept u m hI
-
-theorem TotK.rootsFromInts (cache : List (Nat × Int)) : ∀ ks : List Int, TotK (rootsFromInts cache ks) := by
+/-- the roots of the result on ANY ids -/
+theorem Safe.rootsFromInts {e : Nat → Nat} (cache : List (Nat × Int)) :
+    ∀ (ks : List Int) (l : List Nat),
+      Safe e l l (rootsFromInts cache ks)
+        (fun us l' => l'.Perm (us.map Int.natAbs ++ l) ∧ us.length = ks.length) := by
   intro ks
   induction ks with
-  | nil => unfold DD.rootsFromInts; exact TotK.pure _
+  | nil => intro l; unfold DD.rootsFromInts; exact Safe.pure _ ⟨List.Perm.refl _, rfl⟩
   | cons k rest ih =>
+    intro l
     unfold DD.rootsFromInts
-    refine TotK.bind (TotK.nodeFromInt _ _) fun u => ?_
-    intro m hI hoff
-    have k1 := ih m hI hoff
+    refine Safe.bind (Safe.nodeFromInt cache k) fun u l1 hl1 => ?_
+    rw [hl1]
+    intro m hg
+    obtain ⟨k1, ho⟩ := ih (u.natAbs :: l) m hg
     dsimp only
     cases h1 : DD.rootsFromInts cache rest m with
     | mk r m1 =>
-      rw [h1] at k1
+      rw [h1] at k1 ho
       cases r with
-      | ok us => exact k1
-      | error e => exact k1.trans (dmpDrop_kept u m1 k1.inv)
+      | ok us =>
+        obtain ⟨l', ⟨hp, hlen⟩, g⟩ := ho
+        refine ⟨k1, l', ⟨?_, by simp [hlen]⟩, g⟩
+        refine hp.trans ?_
+        simp only [List.map_cons, List.cons_append]
+        exact List.perm_middle
+      | error er =>
+        obtain ⟨r', hd, g⟩ := dmp_drop_spec m1 _ ho u (extAdd_pos _ _ _)
+        rw [extDec_extAdd] at g
+        have kd : Kept m1 (dmpDrop u m1).2 := decref_kept m1 k1.inv u
+        refine ⟨k1.trans kd, ?_⟩
+        show GoodState (dmpDrop u m1).2 _
+        rw [hd]; exact g
 
-theorem releaseLoop_kept (cache : List (Nat × Int)) :
-    ∀ (ents : List (Nat × Int)) (prev : Option Int) (m : Mgr), Inv m → m.lastLen = none →
-      Kept m (releaseLoop false cache ents prev m).2.2 := by
+theorem Safe.jsonRoots {e : Nat → Nat} {l : List Nat} (f : JsonFile) (cache : List (Nat × Int)) :
+    Safe e l l (jsonRoots f cache)
+      (fun us l' => l'.Perm (us.map Int.natAbs ++ l) ∧ (f.roots.rebuild us).values = us) := by
+  unfold DD.jsonRoots
+  cases hr : f.roots with
+  | none => exact Safe.bind (P := fun _ _ => False) (Safe.throw _) fun _ _ h => h.elim
+  | list ks =>
+    refine Safe.bind (P := fun a l' => l' = l ∧ a = ks) (Safe.pure _ ⟨rfl, rfl⟩) fun a l1 hl1 => ?_
+    obtain ⟨rfl, rfl⟩ := hl1
+    exact (Safe.rootsFromInts cache _ _).mono (fun us l' h => ⟨h.1, rfl⟩)
+  | dict d =>
+    refine Safe.bind (P := fun a l' => l' = l ∧ a = d.map (·.2)) (Safe.pure _ ⟨rfl, rfl⟩) fun a l1 hl1 => ?_
+    obtain ⟨rfl, rfl⟩ := hl1
+    refine (Safe.rootsFromInts cache _ _).mono (fun us l' h => ⟨h.1, ?_⟩)
+    show ((d.map (·.1)).zip us).map (·.2) = us
+    apply List.map_snd_zip
+    have := h.2
+    simp at this ⊢
+    omega
+
+/-- a shelf entry is fetched: one more reference on its node -/
+theorem fetch_shelf (e : Nat → Nat) (cache : List (Nat × Int)) (hn : (cache.map (·.1)).Nodup)
+    (k : Nat) (u0 : Int) (hm : (k, u0) ∈ cache) (hk1 : k ≠ 1) (m : Mgr) (L : List Nat)
+    (hg : GoodState m (extAdd e L)) (hin : u0.natAbs ∈ L) :
+    ∃ r, nodeFromInt cache (k : Int) m = (.ok u0, { m with ref := r }) ∧
+      GoodState { m with ref := r } (extAdd e (u0.natAbs :: L)) := by
+  have hlk := dmp_lookup_of_mem_nodup cache hn k u0 hm
+  have hpos : 0 < extAdd e L u0.natAbs := by
+    have : 0 < L.count u0.natAbs := List.count_pos_iff.mpr hin
+    simp only [extAdd]; omega
+  have hmem : m.tbl.Mem u0 := hg.exact.mem_of_ext_pos hpos
+  obtain ⟨r, hw, g⟩ := dmp_wrap_spec m _ hg u0 hmem
+  rw [extInc_extAdd] at g
+  refine ⟨r, ?_, g⟩
+  unfold DD.nodeFromInt
+  have a1 : ¬ ((k : Int) = -1) := by omega
+  have a2 : ¬ ((k : Int) = 1) := by omega
+  have a3 : ¬ ((k : Int) < 0) := by omega
+  have a4 : ((k : Int)).natAbs = k := by simp
+  simp only [a1, a2, a3, a4, if_false]
+  have hlook : (M.ofOption Err.key (cache.lookup k) : M Int) m = (.ok u0, m) := by rw [hlk]; rfl
+  refine (M.bind_eq_ok hlook).trans ?_
+  refine (M.bind_eq_ok hw).trans ?_
+  rfl
+
+theorem dropOpt_spec (e : Nat → Nat) (prev : Option Int) (m : Mgr) (L : List Nat)
+    (hg : GoodState m (extAdd e (prev.toList.map Int.natAbs ++ L))) :
+    ∃ r, dropOpt prev m = { m with ref := r } ∧ GoodState { m with ref := r } (extAdd e L) := by
+  cases prev with
+  | none => exact ⟨m.ref, rfl, by simpa using hg⟩
+  | some p =>
+    simp only [Option.toList, List.map_cons, List.map_nil, List.cons_append, List.nil_append] at hg
+    obtain ⟨r, hd, g⟩ := dmp_drop_spec m _ hg p (extAdd_pos _ _ _)
+    rw [extDec_extAdd] at g
+    exact ⟨r, hd, g⟩
+
+/-- `except BaseException:` — the shelf's references are given back -/
+theorem releaseFailed_spec (e : Nat → Nat) (cache : List (Nat × Int)) (hn : (cache.map (·.1)).Nodup)
+    (h1 : ∀ p ∈ cache, p.1 ≠ 1) :
+    ∀ (ents : List (Nat × Int)) (prev : Option Int) (m : Mgr) (L : List Nat),
+      (∀ p ∈ ents, p ∈ cache) →
+      GoodState m (extAdd e (prev.toList.map Int.natAbs ++ (shelfRefs ents ++ L))) →
+      ∃ last r, releaseFailed cache ents prev m = (.ok (), last, { m with ref := r }) ∧
+        GoodState { m with ref := r } (extAdd e (last.toList.map Int.natAbs ++ L)) := by
   intro ents
   induction ents with
-  | nil => intro prev m hI _; exact Kept.refl hI
+  | nil =>
+    intro prev m L _ hg
+    exact ⟨prev, m.ref, rfl, by simpa [shelfRefs] using hg⟩
   | cons p rest ih =>
-    intro prev m hI hoff
+    intro prev m L hsub hg
     obtain ⟨k, u0⟩ := p
-    unfold releaseLoop
-    have k1 := TotK.nodeFromInt cache (k : Int) m hI hoff
-    cases h1 : nodeFromInt cache (k : Int) m with
-    | mk r m1 =>
-      rw [h1] at k1
-      cases r with
-      | error e => exact k1
-      | ok u =>
-        dsimp only
-        have k2 : Kept m1 (dropOpt prev m1) := dropOpt_kept prev m1 k1.inv
-        have hoff2 : (dropOpt prev m1).lastLen = none := by
-          rw [k2.frame.lastLen, k1.frame.lastLen]; exact hoff
-        have hbody : TotK (refOf u >>= fun c => M.assert (decide (2 ≤ c)) >>= fun _ =>
-            if false = true then (M.assert (decide (3 ≤ c)) >>= fun _ => decref u) else decref u) := by
-          refine TotK.bind ?_ fun c => TotK.bind (TotK.assert _) fun _ => ?_
-          · intro m hI _
-            have : (refOf u m).2 = m := by unfold refOf; split <;> rfl
-            rw [this]; exact Kept.refl hI
-          · simp only [Bool.false_eq_true, if_false]
-            exact TotK.decref u
-        have k3 := hbody (dropOpt prev m1) k2.inv hoff2
-        cases h3 : (refOf u >>= fun c => M.assert (decide (2 ≤ c)) >>= fun _ =>
-            if false = true then (M.assert (decide (3 ≤ c)) >>= fun _ => decref u) else decref u)
-            (dropOpt prev m1) with
-        | mk r3 m3 =>
-          rw [h3] at k3
-          have K := (k1.trans k2).trans k3
-          cases r3 with
-          | error e => exact K
-          | ok _ =>
-            exact K.trans (ih (some u) m3 K.inv (by rw [K.frame.lastLen]; exact hoff))
+    have hmem := hsub _ List.mem_cons_self
+    obtain ⟨r1, e1, g1⟩ := fetch_shelf e cache hn k u0 hmem (h1 _ hmem) m _ hg
+      (by simp [shelfRefs])
+    have g1' : GoodState { m with ref := r1 }
+        (extAdd e (prev.toList.map Int.natAbs ++ (u0.natAbs :: u0.natAbs :: (shelfRefs rest ++ L)))) := by
+      apply g1.permL
+      simp only [shelfRefs, List.map_cons, List.cons_append]
+      exact List.perm_middle.symm
+    obtain ⟨r2, ed, g2⟩ := dropOpt_spec e prev { m with ref := r1 } _ g1'
+    obtain ⟨r3, hd3, g3⟩ := decref_ok_spec { m with ref := r2 } _ g2 u0 (extAdd_pos _ _ _)
+    rw [extDec_extAdd] at g3
+    obtain ⟨last, r4, e4, g4⟩ := ih (some u0) { m with ref := r3 } L
+      (fun p hp => hsub p (List.mem_cons_of_mem _ hp))
+      (by simpa using g3)
+    refine ⟨last, r4, ?_, g4⟩
+    rw [releaseFailed]
+    simp only [e1, ed, hd3]
+    exact e4
+
+/-- the release loop of the successful path on ANY shelf that is held: its assertions pass -/
+theorem releaseLoop_any (e : Nat → Nat) (cache : List (Nat × Int)) (hn : (cache.map (·.1)).Nodup)
+    (h1 : ∀ p ∈ cache, p.1 ≠ 1) :
+    ∀ (ents : List (Nat × Int)) (prev : Option Int) (m : Mgr) (L : List Nat),
+      (∀ p ∈ ents, p ∈ cache) →
+      GoodState m (extAdd e (prev.toList.map Int.natAbs ++ (shelfRefs ents ++ L))) →
+      ∃ last r, releaseLoop false cache ents prev m = (.ok (), last, { m with ref := r }) ∧
+        GoodState { m with ref := r } (extAdd e (last.toList.map Int.natAbs ++ L)) := by
+  intro ents
+  induction ents with
+  | nil =>
+    intro prev m L _ hg
+    exact ⟨prev, m.ref, rfl, by simpa [shelfRefs] using hg⟩
+  | cons p rest ih =>
+    intro prev m L hsub hg
+    obtain ⟨k, u0⟩ := p
+    have hmem := hsub _ List.mem_cons_self
+    obtain ⟨r1, e1, g1⟩ := fetch_shelf e cache hn k u0 hmem (h1 _ hmem) m _ hg
+      (by simp [shelfRefs])
+    have g1' : GoodState { m with ref := r1 }
+        (extAdd e (prev.toList.map Int.natAbs ++ (u0.natAbs :: u0.natAbs :: (shelfRefs rest ++ L)))) := by
+      apply g1.permL
+      simp only [shelfRefs, List.map_cons, List.cons_append]
+      exact List.perm_middle.symm
+    obtain ⟨r2, ed, g2⟩ := dropOpt_spec e prev { m with ref := r1 } _ g1'
+    have u0mem : ({ m with ref := r2 } : Mgr).tbl.Mem u0 := g2.exact.mem_of_ext_pos (extAdd_pos _ _ _)
+    obtain ⟨c, hc1, hc2⟩ := refOf_ge { m with ref := r2 } _ g2 u0 u0mem
+    have hc3 : 2 ≤ c := by
+      have : 2 ≤ extAdd e (u0.natAbs :: u0.natAbs :: (shelfRefs rest ++ L)) u0.natAbs := by
+        simp [extAdd]; omega
+      omega
+    obtain ⟨r3, hd3, g3⟩ := decref_ok_spec { m with ref := r2 } _ g2 u0 (extAdd_pos _ _ _)
+    rw [extDec_extAdd] at g3
+    have hbody : (refOf u0 >>= fun c => M.assert (decide (2 ≤ c)) >>= fun _ =>
+        if false = true then (M.assert (decide (3 ≤ c)) >>= fun _ => decref u0) else decref u0)
+        { m with ref := r2 } = (.ok (), { m with ref := r3 }) := by
+      refine (M.bind_eq_ok hc1).trans ?_
+      refine (M.bind_eq_ok (assert_ok _ _ (by simpa using hc3))).trans ?_
+      simp only [Bool.false_eq_true, if_false]
+      exact hd3
+    obtain ⟨last, r4, e4, g4⟩ := ih (some u0) { m with ref := r3 } L
+      (fun p hp => hsub p (List.mem_cons_of_mem _ hp))
+      (by simpa using g3)
+    refine ⟨last, r4, ?_, g4⟩
+    rw [releaseLoop]
+    simp only [e1, ed]
+    rw [hbody]
+    exact e4
+
+theorem dropList_spec (e : Nat → Nat) : ∀ (us : List Int) (m : Mgr) (L : List Nat),
+    GoodState m (extAdd e (us.map Int.natAbs ++ L)) →
+    ∃ r, dropList us m = { m with ref := r } ∧ GoodState { m with ref := r } (extAdd e L) := by
+  intro us
+  induction us with
+  | nil => intro m L hg; exact ⟨m.ref, rfl, by simpa using hg⟩
+  | cons u rest ih =>
+    intro m L hg
+    simp only [List.map_cons, List.cons_append] at hg
+    obtain ⟨r, hd, g⟩ := dmp_drop_spec m _ hg u (extAdd_pos _ _ _)
+    rw [extDec_extAdd] at g
+    obtain ⟨r2, hd2, g2⟩ := ih { m with ref := r } L g
+    exact ⟨r2, by rw [dropList, hd, hd2], g2⟩
 
 theorem declare_keptV (names : List String) : ∀ m : Mgr, Inv m → KeptV m (declare names m).2 := by
   induction names with
@@ -540,50 +1098,101 @@ theorem dmpAssertConsistent_state (m : Mgr) : (dmpAssertConsistent m).2 = m := b
   · rfl
   split <;> rfl
 
-/-- `_copy.load_json(file, bdd, load_order=False)` on ANY content, reordering not enabled, any
-outcome -/
-theorem loadJson_keptV (f : JsonFile) (m : Mgr) (hI : Inv m) (hoff : m.lastLen = none) :
-    KeptV m (loadJson f false m).2 := by
-  unfold loadJson
-  simp only [Bool.false_eq_true, if_false]
-  have k1 := declare_keptV (f.levelOfVar.map (·.1)) m hI
-  show KeptV m (M.bind' _ _ m).2
-  unfold M.bind'
-  cases h1 : declare (f.levelOfVar.map (·.1)) m with
-  | mk r m1 =>
-    rw [h1] at k1
-    cases r with
-    | error e => exact k1
-    | ok _ =>
-      dsimp only
-      refine k1.trans (Kept.toV ?_ k1.inv)
-      have hoff1 : m1.lastLen = none := by rw [k1.lastLen]; exact hoff
-      refine TotK.bind (TotK.makeNodes _ _ _) (fun cache => TotK.bind ?_ fun ks =>
-        TotK.bind (TotK.rootsFromInts cache ks) fun us => ?_) m1 k1.inv hoff1
-      · split
-        · exact TotK.throw _
-        · exact TotK.pure _
-      · intro m2 hI2 hoff2
-        have k2 := releaseLoop_kept cache cache none m2 hI2 hoff2
+/-- what `load_json` leaves behind: `KeptV`, and a between-calls state with the counts exact for
+the caller's ledger plus ONE reference per returned `Function` — for the caller's ledger itself
+when the call raised (the `except` clause gave the shelf's references back) -/
+def JsonLeaves (e : Nat → Nat) (m : Mgr) (out : Except Err Roots × Mgr) : Prop :=
+  KeptV m out.2 ∧
+  match out.1 with
+  | .ok roots => GoodState out.2 (extAdd e (roots.values.map Int.natAbs))
+  | .error _ => GoodState out.2 e
+
+/-- `_copy.load_json(file, bdd, load_order=False)` on ANY content whose node lines do not use the
+terminal's id `1`, dynamic reordering not enabled, EVERY outcome -/
+theorem loadJson_false_any (f : JsonFile) (hid : ∀ ln ∈ f.nodes, ln.id ≠ 1) (m : Mgr) (e : Nat → Nat)
+    (hg : GoodState m e) : JsonLeaves e m (loadJson f false m) := by
+  rw [loadJson_false_eq]
+  unfold jsonTry
+  -- the line `level_of_var`
+  obtain ⟨m1, ed, g1, -, -, -, -, -⟩ := declare_spec (f.levelOfVar.map (·.1)) m e hg
+  have kv1 : KeptV m m1 := by
+    have := declare_keptV (f.levelOfVar.map (·.1)) m hg.inv
+    rw [ed] at this; exact this
+  rw [jsonHeader_false f m m1 ed]
+  dsimp only
+  -- the node lines
+  generalize hvat : (f.levelOfVar.foldl (fun acc (x : String × Nat) => (x.2, x.1) :: acc) []) = vat
+  obtain ⟨k2, n2, i2, g2⟩ := makeNodesE_any e vat f.nodes [] m1 (by simp) (by simp) hid
+    (by simpa [shelfRefs, extAdd_nil] using g1)
+  generalize makeNodesE false vat f.nodes [] m1 = res at k2 n2 i2 g2
+  obtain ⟨r2, cache, m2⟩ := res
+  dsimp only at k2 n2 i2 g2
+  have kv2 : KeptV m m2 := kv1.trans (k2.toV kv1.inv)
+  -- the handler
+  have handler : ∀ (er : Err) (m3 : Mgr), Kept m2 m3 → GoodState m3 (extAdd e (shelfRefs cache)) →
+      JsonLeaves e m (jsonFinish f false (.error er, cache, m3)) := by
+    intro er m3 k3 g3
+    obtain ⟨last, r4, e4, g4⟩ := releaseFailed_spec e cache n2 i2 cache none m3 []
+      (fun _ h => h) (by simpa using g3)
+    obtain ⟨r5, e5, g5⟩ := dropOpt_spec e last { m3 with ref := r4 } [] (by simpa using g4)
+    rw [extAdd_nil] at g5
+    unfold jsonFinish
+    simp only [e4, e5]
+    exact ⟨kv2.trans ((GoodState.setRef_kept k3 g5).toV kv2.inv), g5⟩
+  cases r2 with
+  | error er => exact handler er m2 (Kept.refl kv2.inv) g2
+  | ok _ =>
+    dsimp only
+    -- the roots
+    obtain ⟨k3, ho⟩ := Safe.jsonRoots (e := e) (l := shelfRefs cache) f cache m2 g2
+    cases h3 : jsonRoots f cache m2 with
+    | mk r3 m3 =>
+      rw [h3] at k3 ho
+      cases r3 with
+      | error er => exact handler er m3 k3 ho
+      | ok us =>
         dsimp only
-        generalize releaseLoop false cache cache none m2 = res at k2
-        obtain ⟨r, last, m3⟩ := res
-        dsimp only at k2 ⊢
-        have hoff3 : m3.lastLen = none := by rw [k2.frame.lastLen]; exact hoff2
-        have hTot : TotK (liftE r >>= fun _ => dmpAssertConsistent >>= fun _ => (pure () : M Unit)) := by
-          refine TotK.bind ?_ fun _ => TotK.bind ?_ fun _ => TotK.pure _
-          · intro m hI _
-            have : (liftE r m).2 = m := by unfold liftE; split <;> rfl
-            rw [this]; exact Kept.refl hI
-          · intro m hI _
-            rw [dmpAssertConsistent_state]; exact Kept.refl hI
-        have k3 := hTot m3 k2.inv hoff3
-        generalize (liftE r >>= fun _ => dmpAssertConsistent >>= fun _ => (pure () : M Unit)) m3 = res3 at k3 ⊢
-        obtain ⟨r3, m4⟩ := res3
-        have k4 : Kept m4 (dropOpt last m4) := dropOpt_kept last m4 k3.inv
-        cases r3 with
-        | ok _ => exact (k2.trans k3).trans k4
-        | error e => exact ((k2.trans k3).trans k4).trans (dropList_kept us _ k4.inv)
+        obtain ⟨l', ⟨hp, hvals⟩, g3⟩ := ho
+        have kv3 : KeptV m m3 := kv2.trans (k3.toV kv2.inv)
+        -- the release loop
+        obtain ⟨last, r4, e4, g4⟩ := releaseLoop_any e cache n2 i2 cache none m3 (us.map Int.natAbs)
+          (fun _ h => h) (by
+            apply g3.permL
+            refine hp.trans ?_
+            simp only [Option.toList, List.map_nil, List.nil_append]
+            exact List.perm_append_comm)
+        unfold jsonFinish
+        simp only [e4, Bool.false_eq_true, if_false]
+        let m4 : Mgr := { m3 with ref := r4 }
+        have g4' : GoodState m4 (extAdd e (last.toList.map Int.natAbs ++ us.map Int.natAbs)) := g4
+        have k4 : Kept m3 m4 := GoodState.setRef_kept (Kept.refl k3.inv) g4'
+        obtain ⟨r5, e5, g5⟩ := dropOpt_spec e last m4 (us.map Int.natAbs) g4'
+        cases hac : dmpAssertConsistent m4 with
+        | mk ra ma =>
+          have hma : ma = m4 := by have := dmpAssertConsistent_state m4; rw [hac] at this; exact this
+          subst hma
+          cases ra with
+          | ok _ =>
+            have hfin : (liftE (Except.ok ()) >>= fun _ => dmpAssertConsistent >>= fun _ => (pure () : M Unit)) m4
+                = (.ok (), m4) := by
+              refine (M.bind_eq_ok (show liftE (Except.ok ()) m4 = (.ok (), m4) from rfl)).trans ?_
+              exact (M.bind_eq_ok hac).trans rfl
+            rw [hfin]
+            simp only [e5]
+            refine ⟨kv3.trans ((GoodState.setRef_kept (Kept.refl k3.inv) g5).toV kv3.inv), ?_⟩
+            show GoodState _ (extAdd e ((f.roots.rebuild us).values.map Int.natAbs))
+            rw [hvals]; exact g5
+          | error er =>
+            have hfin : (liftE (Except.ok ()) >>= fun _ => dmpAssertConsistent >>= fun _ => (pure () : M Unit)) m4
+                = (.error er, m4) := by
+              refine (M.bind_eq_ok (show liftE (Except.ok ()) m4 = (.ok (), m4) from rfl)).trans ?_
+              exact M.bind_eq_err hac
+            rw [hfin]
+            simp only [e5]
+            obtain ⟨r6, e6, g6⟩ := dropList_spec e us { m3 with ref := r5 } [] (by simpa using g5)
+            rw [extAdd_nil] at g6
+            rw [e6]
+            exact ⟨kv3.trans ((GoodState.setRef_kept (Kept.refl k3.inv) g6).toV kv3.inv), g6⟩
 
 
 end DD
